@@ -52,18 +52,23 @@ def check(F, rep):
     # (c) poll_recv_queue
     q = get_fn(F, rep, RT + "::poll_recv_queue")
     pr = find_calls(q, regex=r"mpsc::bounded::Receiver::poll_recv$")
-    isome = find_calls(q, "core::option::Option::is_some")
+    st, isome = presence_tests(q, "pending_item")
     rep.exact("queue", "channel polls in poll_recv_queue", len(pr), 1)
-    rep.exact("queue", "pending_item.is_some() tests", len(isome), 1)
+    rep.floor("queue", "tests of pending_item being stored", len(isome), 1)
     if pr and isome:
-        st, _ = call_result_tests(q, isome[0][0], family="bool")
         rep.ob("queue", requires_failure(q, pr[0][0], st), site(q, pr[0][0]), "the channel is polled only when no item is stored (stored item is served first)", skey(F, q, "stored-first"))
         pt, _ = call_result_tests(q, pr[0][0], family="poll")
         for b, i, rv in returns_of(q):
             if i is not None and rv["k"] == "agg" and rv.get("variant") == "Pending":
                 rep.ob("queue", requires_failure(q, b, [t for t in pt if t.level == 0]), site(q, b), "Pending is returned only when the channel returned Pending (its waker is registered)", skey(F, q, "pending-from-channel"))
-        ins = find_calls(q, "core::option::Option::insert")
-        rep.ob("queue", len(ins) == 1 and recv_field(q, ins[0][1]["args"][0]) == "pending_item" and requires(q, ins[0][0], pt, levels=[0, 1]), site(q), "a received item is stored as the pending item", skey(F, q, "store-received"))
+        ins = [(b, "insert") for b, t in find_calls(q, "core::option::Option::insert") if recv_field(q, t["args"][0]) == "pending_item"]
+        qdu = defuse(q)
+        for b, i, s_ in field_writes(q, "pending_item"):
+            vl = op_base(s_["rv"]["o"]) if s_["rv"]["k"] == "use" else None
+            src = copy_sources(q, vl) if vl is not None else ({("agg", "Some")} if s_["rv"]["k"] == "agg" and s_["rv"].get("variant") == "Some" else set())
+            if any(x[0] == "agg" and x[1].endswith("Some") for x in src) and (pr[0][1]["dest"]["l"] in qdu.closure(vl) if vl is not None else any(op_base(o) is not None and pr[0][1]["dest"]["l"] in qdu.closure(op_base(o)) for o in s_["rv"].get("ops", []))):
+                ins.append((b, "assign"))
+        rep.ob("queue", len(ins) == 1 and requires(q, ins[0][0], pt, levels=[0, 1]), site(q), "a received item is stored as the pending item (%s)" % [k for _, k in ins], skey(F, q, "store-received"))
     # (d) loop exits
     nx = find_calls(f, "core::iter::traits::iterator::Iterator::next")
     rep.exact("wake", "for-loop iterator next() in poll_recv", len(nx), 1)
